@@ -1,6 +1,10 @@
 package gen
 
-import "strings"
+import (
+	"strings"
+
+	"github.com/go-openapi/swag"
+)
 
 // The name alphabet is layered: plain ⊂ +space/unicode ⊂ +JSON-pointer specials ⊂ +URL-reserved.
 // Index 0 of every pool is the plainest name. Excluded as the properties say: '%', '.', '..', the
@@ -49,6 +53,9 @@ func NameClasses(n string) []string {
 	}
 	if strings.Contains(n, "OAIGen") {
 		out = append(out, "oaigen")
+	}
+	if swag.ToJSONName(n) == "" {
+		out = append(out, "punct") // punctuation only: mangles to the empty string
 	}
 	return out
 }
